@@ -2,7 +2,7 @@
    Value level: each WriteValue / Begin* overload of the writer model (MpModel.v), read back by the
    reference decoder of MpSpec.v.  dec1 bytes rest = the reference decoder applied to bytes ++ rest.
    Statements only. *)
-From BS Require Import Base MpSpec MpModel MpLemmas MpWriter.
+From BS Require Import Base UtfModel MpSpec MpModel MpLemmas MpWriter MpOrder.
 Local Open Scope N_scope.
 
 (* unsigned integer types: value recovered, most compact format of all integer formats *)
@@ -143,3 +143,33 @@ Example T_C06_bytes_in_array_are_bin :
   save (TArr [TBytes [1; 2]; TBytes [0x90]]) = Some [0x92; 0xC4; 2; 1; 2; 0xC4; 1; 0x90].
 Proof. exact save_bytes_in_array. Qed.
 Print Assumptions T_C06_bytes_in_array_are_bin.
+
+(* ---------------------------------------------------------------- byte order (MpOrder.v) *)
+
+(* Memory::Reverse on an 8-byte integer, as written in memory_utils.h (three mask-and-shift steps on a uint64_t),
+   is the byte swap: the four 16-bit quarters in opposite order, each with its two bytes exchanged *)
+Theorem T_C06_reverse64_is_byte_swap : forall v, v < 18446744073709551616 -> rev64 v = swap64 v.
+Proof. exact rev64_spec. Qed.
+Print Assumptions T_C06_reverse64_is_byte_swap.
+
+(* NativeToBigEndian (= Reverse on the little-endian host) followed by a raw copy of the object representation
+   emits exactly the big-endian bytes the writer model (be_bytes in wr_u16 ... wr_u64, wr_f32/f64, wr_ts and the
+   length headers) and the reference decoder use; le_bytes k v = the k bytes of v in memory order on this host *)
+Theorem T_C06_big_endian_64 : forall v, v < 18446744073709551616 -> le_bytes 8 (rev64 v) = be_bytes 8 v.
+Proof. exact rev64_big_endian. Qed.
+Print Assumptions T_C06_big_endian_64.
+Theorem T_C06_big_endian_32 : forall v, v < 4294967296 -> le_bytes 4 (rev32 v) = be_bytes 4 v.
+Proof. exact rev32_big_endian. Qed.
+Print Assumptions T_C06_big_endian_32.
+Theorem T_C06_big_endian_16 : forall v, v < 65536 -> le_bytes 2 (rev16 v) = be_bytes 2 v.
+Proof. exact rev16_big_endian. Qed.
+Print Assumptions T_C06_big_endian_16.
+
+(* BigEndianToNative is the same function, so the reader undoes what the writer did *)
+Theorem T_C06_reverse64_involutive : forall v, v < 18446744073709551616 -> rev64 (rev64 v) = v.
+Proof. exact rev64_involutive. Qed.
+Print Assumptions T_C06_reverse64_involutive.
+
+Example T_C06_big_endian_example : le_bytes 8 (rev64 0x0102030405060708) = [1; 2; 3; 4; 5; 6; 7; 8].
+Proof. vm_compute. reflexivity. Qed.
+Print Assumptions T_C06_big_endian_example.
